@@ -1,4 +1,4 @@
-import Pds.Proofs.KernelTie.CuckooOps
+import Pds.Proofs.KernelTie.CuckooUnion
 /-!
 # C12 — tie by translation (flow mode): the rollback machinery of the cuckoo filter
 `insert_internal` (what it logs), `restore_state` (how the log is replayed) and the public `insert`
@@ -18,12 +18,24 @@ theorem insert_internal_translated {R : Type} (I : RngI R) (hash : List Nat → 
 theorem restore_state_translated (lg : List (Nat × Nat)) (t : Array Nat) (h : ∀ p ∈ lg, p.1 < t.size) :
     cuckoo_restore_state t.toList lg = Flow.cont (restore t lg.reverse).toList := cuckoo_restore_state_eq lg t h
 
-theorem insert_translated {R : Type} (I : RngI R) (hash : List Nat → Nat) (kicks : Nat) (s : St R) (x : Nat)
-    (hlog : ∀ st, insertInternal I hash s.bs s.nb kicks s.table s.n s.rng [] (start hash s x).1 (start hash s x).2.1 (start hash s x).2.2 = some st →
-      ∀ p ∈ st.log, p.1 < st.table.size) :
+theorem insert_translated {R : Type} (I : RngI R) (hash : List Nat → Nat) (kicks : Nat) (s : St R) (x : Nat) :
     cuckoo_insert R I (bucketOf hash s.nb) s.bs s.table.toList s.n s.rng (start hash s x).1 (start hash s x).2.1 (start hash s x).2.2 kicks =
       match Cuckoo.insert I hash kicks s x with
       | none => Flow.panic
-      | some (s', r) => Flow.ret (resB r, (s'.table.toList, s'.n, s'.rng)) := cuckoo_insert_eq I hash kicks s x hlog
+      | some (s', r) => Flow.ret (resB r, (s'.table.toList, s'.n, s'.rng)) := cuckoo_insert_eq' I hash kicks s x
+
+/-- every position `insert_internal` logs is a slot of the table, so the rollback never indexes out of bounds -/
+theorem insert_internal_log_in_bounds {R : Type} (I : RngI R) (hash : List Nat → Nat) (bs nb kicks : Nat)
+    (t : Array Nat) (n : Nat) (rng : R) (lg : Log) (f i1 i2 : Nat) (st : Step R)
+    (h : insertInternal I hash bs nb kicks t n rng lg f i1 i2 = some st) (hl : LogOk t lg) :
+    LogOk st.table st.log ∧ st.table.size = t.size := insertInternal_log I hash bs nb kicks t n rng lg f i1 i2 st h hl
+
+/-- `union` as translated (assertions, walk over the other table, `insert_internal` per used slot, and on
+failure `restore_state` + `n_elements = n_elements_backup` + `Err`) is the model's `union` -/
+theorem union_translated {R : Type} (I : RngI R) (hash : List Nat → Nat) (kicks : Nat) (s o : St R) (hbs : 0 < s.bs) :
+    cuckoo_union R I (bucketOf hash s.nb) s.bs s.nb s.lf s.table.toList s.n s.rng o.table.toList o.bs o.nb o.lf kicks =
+      match Cuckoo.union I hash kicks s o with
+      | none => Flow.panic
+      | some (s', r) => Flow.ret (resB r, (s'.table.toList, s'.n, s'.rng)) := cuckoo_union_eq I hash kicks s o hbs
 
 end Pds.Tie.C12
